@@ -164,6 +164,7 @@ def run(loader, R, tier):
     # ---------------------------------------------------------------- R34.1
     pts = all_points()
     nvis = 0
+    joint = {}
     for vname, q in sorted(QUERY_VISITORS.items()):
         vis = NS + vname
         if vis not in V.table:
@@ -191,6 +192,10 @@ def run(loader, R, tier):
                 if not o.definite:
                     definite = False
                 answers.add(val[1] if isinstance(val, tuple) else repr(val))
+            if definite and len(answers) == 1 and next(iter(answers)) in (
+                    "tritrue", "trifalse"):
+                joint.setdefault(repr(p), {})[q] = (
+                    next(iter(answers)) == "tritrue", prog.loc(f))
             R.instance("R34.1", key, nontrivial=want is not None, sample={
                 "query": q, "number": repr(p), "answers": sorted(answers),
                 "truth": want})
@@ -209,6 +214,47 @@ def run(loader, R, tier):
                     "is %s for every such number" % (
                         q, a, p, short(f["qn"]) + "(" + short(
                             f["params"][0]["t"]) + ")", want))
+    # R34.9: the definite answers that the visitors give for one number are
+    # jointly satisfiable (no oracle: a value cannot be nonnegative without
+    # being positive or zero, whatever one thinks NaN is)
+    from selib import tri as _tri
+    R.rule("R34.9", "the definite answers for one number are jointly "
+                    "satisfiable")
+    for pname, ans in sorted(joint.items()):
+        qs = {q: v for q, (v, _w) in ans.items() if q in _tri.QUERIES}
+        SIGN = ("zero", "positive", "negative", "nonnegative", "nonpositive")
+        if pname.startswith(("RealDouble", "ComplexDouble")):
+            # convention: a floating-point number is never "integer" /
+            # "rational", whatever its value
+            qs = {q: v for q, v in qs.items()
+                  if q not in ("integer", "rational", "algebraic")}
+        elif pname.startswith("Infty"):
+            # convention: +oo / -oo carry a sign but are not real numbers
+            qs = {q: v for q, v in qs.items() if q not in SIGN}
+        elif pname.startswith("NaN"):
+            qs = {q: v for q, v in qs.items() if q in SIGN}
+        R.instance("R34.9", pname, sample={
+            "number": pname, "answers": {q: v for q, v in sorted(qs.items())}})
+        if len(qs) > 1 and not any(
+                all(_tri.QUERIES[q](w) == v for q, v in qs.items())
+                for w in _tri.WORLDS):
+            # smallest contradictory subset for the message
+            import itertools as _it
+            core = None
+            for n_ in (2, 3, 4):
+                for sub in _it.combinations(sorted(qs), n_):
+                    if not any(all(_tri.QUERIES[q](w) == qs[q] for q in sub)
+                               for w in _tri.WORLDS):
+                        core = sub
+                        break
+                if core:
+                    break
+            core = core or tuple(sorted(qs))
+            R.violation(
+                "R34.9", pname, ans[core[0]][1],
+                "for the number %s the queries answer %s: no value has "
+                "these properties together" % (pname, ", ".join(
+                    "is_%s = %s" % (q, str(qs[q]).lower()) for q in core)))
     R.floor("query visitors", nvis, 11)
     R.floor("judged (query, number) entries",
             len(R.nontrivial.get("R34.1", ())), 150)
@@ -393,6 +439,7 @@ def run(loader, R, tier):
 
     assumption_ingest(prog, R)
     world_soundness(prog, R, V)
+    context_flags(prog, R, V)
 
 
 # ------------------------------------------------------------------ R34.6
@@ -401,13 +448,14 @@ from selib.absint import Domain as _Domain
 
 _SQRT2 = ("irr", 1.4142135623730951)
 _IMAG = ("nonreal",)
+_INF = ("inf",)                 # +oo: a Number, but not a complex number
 _XS = [_Fr(-2), _Fr(-1), _Fr(-1, 2), _Fr(0), _Fr(1, 2), _Fr(1), _Fr(2),
-       _SQRT2, ("irr", -1.4142135623730951), _IMAG]
-_NS = [_Fr(-1), _Fr(-1, 2), _Fr(0), _Fr(1, 2), _Fr(1), _SQRT2, _IMAG]
+       _SQRT2, ("irr", -1.4142135623730951), _IMAG, _INF]
+_NS = [_Fr(-1), _Fr(-1, 2), _Fr(0), _Fr(1, 2), _Fr(1), _SQRT2, _IMAG, _INF]
 
 
 def _real(v):
-    return v != _IMAG
+    return v != _IMAG and v != _INF
 
 
 def _num(v):
@@ -421,12 +469,12 @@ _FACTS = {
     "negative_": lambda x: _real(x) and _num(x) < 0,
     "nonnegative_": lambda x: _real(x) and _num(x) >= 0,
     "nonpositive_": lambda x: _real(x) and _num(x) <= 0,
-    "complex_symbols_": lambda x: True,
+    "complex_symbols_": lambda x: x != _INF,
     "real_symbols_": _real,
     "rational_symbols_": lambda x: isinstance(x, _Fr),
     "integer_symbols_": lambda x: isinstance(x, _Fr) and x.denominator == 1,
 }
-_SETS = {"Complexes": lambda x: True, "Reals": _real,
+_SETS = {"Complexes": lambda x: x != _INF, "Reals": _real,
          "Rationals": _FACTS["rational_symbols_"],
          "Integers": _FACTS["integer_symbols_"]}
 
@@ -485,6 +533,8 @@ class StmtDomain(_Domain):
                     and v[1] != self.sym and self.n is not None:
                 if self.n == _IMAG:
                     return e["n"] == "is_complex"
+                if self.n == _INF:
+                    return e["n"] == "is_positive"
                 x = _num(self.n)
                 return {"is_zero": x == 0, "is_positive": x > 0,
                         "is_negative": x < 0, "is_complex": False}[e["n"]]
@@ -519,8 +569,9 @@ def assumption_ingest(prog, R):
     for typ in ("LessThan", "StrictLessThan", "Equality", "Unequality"):
         for sym in (1, 2):
             for n in _NS:
-                if n == _IMAG and typ in ("LessThan", "StrictLessThan"):
-                    continue
+                if n in (_IMAG, _INF) and typ in ("LessThan",
+                                                  "StrictLessThan"):
+                    continue    # order statements: finite real numbers
                 forms.append(StmtDomain(typ, sym, n))
     for setname in _SETS:
         forms.append(StmtDomain("Contains", None, None, setname))
@@ -535,8 +586,8 @@ def assumption_ingest(prog, R):
         else:
             S = [x for x in _XS if _holds(D.typ, *(
                 (x, D.n) if D.sym == 1 else (D.n, x)))]
-            nt = "I" if D.n == _IMAG else (
-                "sqrt(2)" if D.n == _SQRT2 else str(D.n))
+            nt = "I" if D.n == _IMAG else ("oo" if D.n == _INF else (
+                "sqrt(2)" if D.n == _SQRT2 else str(D.n)))
             desc = "%s(%s, %s)" % (D.typ, *(("x", nt) if D.sym == 1
                                             else (nt, "x")))
         seen = set()
@@ -578,12 +629,117 @@ def assumption_ingest(prog, R):
                         "query under this assumption can be definitely "
                         "wrong" % (desc, mem.rstrip("_"), val,
                                    "I" if bad[0] == _IMAG else (
-                                       bad[0][1] if isinstance(bad[0], tuple)
-                                       else bad[0])))
+                                       "oo" if bad[0] == _INF else (
+                                           bad[0][1] if isinstance(bad[0],
+                                                                   tuple)
+                                           else bad[0]))))
     R.floor("facts recorded over the abstract statement forms", nwrites, 150)
 
 
+# ------------------------------------------------------------------ R34.8
+# context members of a query visitor: state that a handler changes for the
+# duration of its children (e.g. "variables are not allowed below this node")
+CONTEXT = {"SymEngine::PolynomialVisitor": "variables_allowed_"}
+
+
+def context_flags(prog, R, V):
+    """R34.8: a handler that changes a context flag leaves it, on every exit,
+    equal to the value it had on entry (restored from a copy, or set to a
+    constant under a test that established that constant on entry).  The
+    handler is interpreted for both entry values with every other condition
+    free (loops unrolled once and twice)."""
+    from selib import tri
+    R.rule("R34.8", "a handler leaves the visitor's context flag as it "
+                    "found it, on every exit")
+    nctx = 0
+    for vis, mem in sorted(CONTEXT.items()):
+        if vis not in prog.classes or not any(
+                fd["n"] == mem for _c, fd in prog.fields(vis)):
+            raise AnalysisBroken("%s::%s vanished" % (vis, mem))
+        for fu in sorted(prog.by_class.get(vis, ())):
+            f = prog.functions[fu]
+            if not f.get("body") or f.get("ctor") or f["n"] == "apply":
+                continue
+            writes = [n for n in walk(f["body"])
+                      if n.get("k") in ("bin", "op") and n.get("op") == "="
+                      and n.get("a") and n["a"][0].get("k") == "mem"
+                      and n["a"][0].get("m") == mem]
+            if not writes:
+                continue
+            nctx += 1
+            key = "%s::%s(%s)" % (short(vis), f["n"], short(
+                f["params"][0]["t"]) if f.get("params") else "")
+            R.instance("R34.8", key, sample={"handler": key, "flag": mem,
+                                             "writes": len(writes)})
+            bad = None
+            for unroll in (1, 2):
+                lv = tri.leaves(prog, f, "__none__", limit=20000,
+                                unroll=unroll)
+                if lv is None:
+                    R.undecided_obligation("R34.8", key, "explosion")
+                    break
+                for a, outs in lv:
+                    entry = a.get("bool:" + mem)
+                    for o in outs:
+                        if o.kind == "throw":
+                            continue
+                        fin = (o.env or {}).get("this." + mem, "unchanged")
+                        if fin == "unchanged":
+                            continue
+                        if not isinstance(fin, bool):
+                            continue        # not a constant: no claim
+                        if entry is None or fin != entry:
+                            bad = (o.line, fin, entry)
+                            break
+                    if bad:
+                        break
+                if bad or not any(n.get("k") == "forr"
+                                  for n in walk(f["body"])):
+                    break
+            if bad:
+                R.violation(
+                    "R34.8", key, prog.loc(f, bad[0]),
+                    "%s can finish with %s = %s %s: a later sibling of the "
+                    "node is then judged in the wrong context (a variable "
+                    "inside a function argument or an exponent is accepted "
+                    "as polynomial)" % (
+                        key, mem, str(bad[1]).lower(),
+                        "although it was %s on entry" % str(bad[2]).lower()
+                        if bad[2] is not None else
+                        "without having looked at the value it had on "
+                        "entry"))
+    R.floor("handlers writing a context flag", nctx, 2)
+
+
 # ------------------------------------------------------------------ R34.7
+def _minus_one(w):
+    """world of exp - 1 given the world of an integer exponent"""
+    if w is None or w[1] != "int":
+        return None
+    if len(w) == 3:
+        return ("zero", "int")
+    if w[0] == "pos":               # an integer >= 2
+        return ("pos", "int")
+    return ("neg", "int")           # zero or negative
+
+
+def pow_objects(meta, var=None):
+    """objects a power handler asks about: base (slot 0), exponent (slot 1),
+    exponent - 1 (derived), the Mul's numeric coefficient (slot 2)"""
+    objs = {}
+    for o, _q in meta.values():
+        b = o.split(" #")[0]
+        if b == "base" or (var and b == var + ".first"):
+            objs[o] = 0
+        elif b == "exp" or (var and b == var + ".second"):
+            objs[o] = 1
+        elif b.startswith("sub(exp,") and "integer<int>(1" in b:
+            objs[o] = ("derived", 1, _minus_one)
+        elif b.startswith("x.get_coef"):
+            objs[o] = 2
+    return objs
+
+
 def world_soundness(prog, R, V):
     """the Add/Mul combination rules against abstract values: each child is
     given a world (sign class x number class), the sub-answers are every
@@ -619,17 +775,20 @@ def world_soundness(prog, R, V):
                 n.get("k") == "mem" and n.get("m") == "assumptions_"
                 for n in walk(sf["body"])):
             continue            # children cannot be arbitrary (see above)
-        for cls in ("Add", "Mul"):
+        for cls in ("Add", "Mul", "Pow"):
             h = V.handlers(vis).get("SymEngine::" + cls)
             f = prog.functions.get(h) if h else None
             if f is None or not f.get("params") or strip_type(
                     f["params"][0]["t"]) != "SymEngine::" + cls:
                 continue
             loops = [n for n in walk(f["body"]) if n.get("k") == "forr"]
-            if len(loops) != 1 or not (loops[0].get("v") or {}).get("n"):
+            if cls == "Pow":
+                loops = [{"v": {"n": None}, "r": {"k": "lit", "v": "-"}}]
+            if len(loops) != 1 or (cls != "Pow" and not (
+                    loops[0].get("v") or {}).get("n")):
                 continue
             var = loops[0]["v"]["n"]
-            rng = show(loops[0]["r"])
+            rng = show(loops[0]["r"]) if cls != "Pow" else "-"
             key = "%s::bvisit(%s)" % (short(vis), cls)
             op = tri.world_sum if cls == "Add" else tri.world_prod
             meta = {}
@@ -640,25 +799,71 @@ def world_soundness(prog, R, V):
                 objs = {"%s #%d" % (var, i): i for i in range(n)}
                 extra = None
                 what = "two arguments"
+            elif cls == "Pow":
+                lv = tri.leaves(prog, f, mem, limit=30000, unroll=0,
+                                own=own, meta=meta)
+                objs = pow_objects(meta)
+                extra = None
+
+                def result(bools, wmap):
+                    if bools or 0 not in wmap:
+                        return None
+                    ew = wmap.get(1, tri.ONE)
+                    if ew[1] != "int":
+                        return None
+                    return [("pos", "int", "one"), wmap[0], ew], \
+                        tri.world_pow(wmap[0], ew)
+                what = "base**exp"
             elif cls == "Mul" and "get_dict" in rng:
-                # coefficient * base**1: the exponent is fixed to one, so
-                # the factor has the world of its base
+                # coefficient * base**exp for one dictionary entry.  If the
+                # handler asks whether exp - 1 is zero the exponent is fixed
+                # to one; otherwise it ranges over the integer worlds.
                 lv = tri.leaves(prog, f, mem, limit=30000, unroll=1,
                                 own=own, meta=meta)
-                objs = {"base #0": 0, "exp #0": ("pos", "int")}
-                for k, (o, _q) in meta.items():
-                    if o.startswith("sub(exp,") and "integer<int>(1" in o:
-                        objs[o] = ("zero", "int")
+                has_one = False
+                objs = pow_objects(meta, var)
+                extra = None
+                NUMW = {(s_, k_) for s_ in ("pos", "neg")
+                        for k_ in ("int", "rat")} | {("nonreal", "alg")}
 
-                def extra(bools):
-                    w = None
+                def result(bools, wmap, has_one=has_one):
+                    # the numeric coefficient: a sub-answer about it, the
+                    # handler's own test of Number::is_complex() (true only
+                    # for Complex numbers and zoo; false also for +-oo), or
+                    # nothing at all (then any number, including oo)
+                    coefs = [wmap[2]] if 2 in wmap else None
                     for k, v in bools.items():
                         if "get_coef()" in k and "is_complex()" in k:
-                            w = ("nonreal", "alg") if v else ("pos", "int")
+                            coefs = [("nonreal", "alg")] if v else [
+                                ("pos", "int"), ("inf", "inf")]
+                        elif "eq(" in k and "one" in k:
+                            # `exp == 1` tested structurally
+                            if v and not has_one:
+                                return None
                         else:
                             return None
-                    return w
-                what = "coefficient * base**1"
+                    if coefs is None:
+                        coefs = [("pos", "int"), ("nonreal", "alg"),
+                                 ("inf", "inf")]
+                    if 0 not in wmap:
+                        return None
+                    base = wmap[0]
+                    # the exponent: a slot if the handler asked about it,
+                    # otherwise one (the factor is the base itself)
+                    ew = wmap.get(1, tri.ONE)
+                    if ew[1] != "int":
+                        return None
+                    factor = tri.world_pow(base, ew)
+                    alts = []
+                    for coef in coefs:
+                        if coef not in NUMW and coef != ("inf", "inf"):
+                            continue
+                        res = set().union(*[tri.world_prod(coef, w)
+                                            for w in factor]) \
+                            if factor else set()
+                        alts.append(([coef, base, ew], res))
+                    return alts or None
+                what = "coefficient * base**exp"
             elif cls == "Add" and rng in ("dict", "x.get_dict()"):
                 # coef + c*key with the signs of the numbers coef and c
                 # taken from the handler's own boolean atoms
@@ -667,7 +872,8 @@ def world_soundness(prog, R, V):
                 objs = {"%s.first #0" % var: 0}
                 extra = None
 
-                def result(bools, ws, var=var):
+                def result(bools, wmap, var=var):
+                    ws = [wmap[0]]
                     sg = {}
                     for k, v in bools.items():
                         t = k[5:]
@@ -711,12 +917,33 @@ def world_soundness(prog, R, V):
             R.instance("R34.7", key, sample={
                 "handler": key, "shape": what, "assignments": len(lv)})
             seen = set()
-            res_cb = result if what == "coef + c*key" else None
+            sw = {1: tri.WORLDS + [tri.ONE]} \
+                if what in ("coefficient * base**exp", "base**exp") else None
+            res_cb = result if what in ("coef + c*key", "base**exp",
+                                        "coefficient * base**exp") else None
             for a, r, ws, bad in tri.unsound_worlds(lv, meta, mem, own, op,
-                                                    objs, extra, res_cb):
-                sig = "%s:%s" % ("true" if r == "T" else "false",
-                                 "*".join(w[0] for w in ws) if cls == "Mul"
-                                 else "+".join(w[0] for w in ws))
+                                                    objs, extra, res_cb,
+                                                    sw):
+                def cause(ws):
+                    # the feature of the operands that makes the answer
+                    # wrong (one finding per cause, not per world tuple)
+                    if cls == "Add":
+                        return "+".join(w[0] for w in ws)
+                    c, b = ws[0][0], ws[1][0]
+                    e = "one" if len(ws) < 3 or len(ws[2]) == 3 else ws[2][0]
+                    if c == "inf":
+                        return "infinite coefficient"
+                    if b == "zero" and e == "neg":
+                        return "zero base with a negative exponent"
+                    if c == "nonreal" and b == "zero":
+                        return "nonreal*zero"
+                    if c == "nonreal" and b == "nonreal":
+                        return "nonreal*nonreal"
+                    if e == "neg":
+                        return "negative exponent"
+                    return "*".join(w[0] for w in ws[:2]) + (
+                        "**" + e if len(ws) > 2 else "")
+                sig = "%s:%s" % ("true" if r == "T" else "false", cause(ws))
                 if sig in seen:
                     continue
                 seen.add(sig)
